@@ -1023,6 +1023,25 @@ impl Router {
             self.scheduler.track(id, request);
             self.scheduler.reschedule(id, ScheduleReason::NewFilter);
             debug_assert!(self.scheduler.check_tracker_duplicates(id).is_none())
+        } else {
+            // The SUBACK grants the QoS asked for now: the existing request carries it from
+            // here on, wherever it currently waits
+            let qos = filter.qos as u8;
+            let tracked = self.scheduler.trackers[id].data_requests.iter_mut();
+            let parked = self
+                .datalog
+                .native
+                .get_mut(filter_idx)
+                .into_iter()
+                .flat_map(|data| data.waiters.get_mut().iter_mut())
+                .chain(self.notifications.iter_mut())
+                .filter(|(connection_id, _)| *connection_id == id)
+                .map(|(_, request)| request);
+            for request in tracked.chain(parked) {
+                if &request.filter == filter_path {
+                    request.qos = qos;
+                }
+            }
         }
 
         // TODO: figure out how we can update existing DataRequest
